@@ -492,6 +492,62 @@ Fixpoint rc_loop (fuel : nat) (s : bytes) (incomment : bool) : bytes * bool :=
 Definition t_remove_comments (s : bytes) : tres :=
   let '(o, ch) := rc_loop (S (length s)) s false in ok_res o ch.
 
+(* ---- urlDecodeUni: parametric in the best-fit table (regenerated from
+        unicode_bestfit.go by the translator: coq/gen/FactsC14.v) ---- *)
+Fixpoint udu_loop (tbl : N -> option N) (fuel : nat) (s : bytes) : bytes * bool :=
+  match fuel with
+  | O => ([], false)
+  | S f =>
+    match s with
+    | [] => ([], false)
+    | c :: r =>
+      if c =? 43 then (32 :: fst (udu_loop tbl f r), true)
+      else if c =? 37 then
+        match r with
+        | u :: r1 =>
+          if (u =? 117) || (u =? 85) then
+            match (match r1 with
+                   | h2 :: h3 :: h4 :: h5 :: r5 =>
+                     match from_hex_char h2, from_hex_char h3, from_hex_char h4, from_hex_char h5 with
+                     | Some v2, Some v3, Some v4, Some v5 =>
+                       let code := v2 * 4096 + v3 * 256 + v4 * 16 + v5 in
+                       let low := v4 * 16 + v5 in
+                       let low := if (0 <? low) && (low <? 95) && (v2 =? 15) && (v3 =? 15) then low + 32 else low in
+                       Some (match tbl code with Some b => b | None => low end, r5)
+                     | _, _, _, _ => None
+                     end
+                   | _ => None
+                   end) with
+            | Some (b, r5) => (b :: fst (udu_loop tbl f r5), true)
+            | None => let '(o, ch) := udu_loop tbl f r1 in (c :: u :: o, ch)
+            end
+          else
+            match (match r with
+                   | h1 :: h2 :: r2 =>
+                     match from_hex_char h1, from_hex_char h2 with
+                     | Some v1, Some v2 => Some (v1 * 16 + v2, r2)
+                     | _, _ => None
+                     end
+                   | _ => None
+                   end) with
+            | Some (b, r2) => (b :: fst (udu_loop tbl f r2), true)
+            | None => let '(o, ch) := udu_loop tbl f r in (c :: o, ch)
+            end
+        | [] => ([c], false)
+        end
+      else let '(o, ch) := udu_loop tbl f r in (c :: o, ch)
+    end
+  end.
+Definition t_url_decode_uni (tbl : N -> option N) (s : bytes) : tres :=
+  if has_pct_or_plus s then let '(o, ch) := udu_loop tbl (S (length s)) s in ok_res o ch
+  else ok_res s false.
+
+Fixpoint assoc_N (l : list (N * N)) (k : N) : option N :=
+  match l with
+  | [] => None
+  | (a, b) :: r => if a =? k then Some b else assoc_N r k
+  end.
+
 (* ---- registry: transformation ids used by the correspondence and by Engine ---- *)
 Inductive tid :=
   | TNone | TLength | TLowercase | TUppercase | TRemoveNulls | TReplaceNulls | TTrim | TTrimLeft
